@@ -27,7 +27,7 @@ G.DT.setdefault("i2", np.int16)
 G.DT.setdefault(">f8", np.dtype(">f8"))
 G.DT.setdefault(">c8", np.dtype(">c8"))
 ARR1 = ["s", "s_dask", "out_partial"]
-ARR2 = ["ss", "sa", "as", "sk", "ks", "sq", "qs", "out", "out_tuple", "ss_dask", "s0d", "bcast", "out_partial"]
+ARR2 = ["ss", "sa", "as", "sk", "ks", "sq", "qs", "out", "out_tuple", "ss_dask", "s0d", "bcast", "out_partial", "out_partial_as"]
 SUBCLASS = {"Signal": "RadioSignal", "RadioSignal": "IntensitySignal", "IntensitySignal": "FullStokesSignal", "BasebandSignal": "DualPolarizationSignal"}
 
 
@@ -165,7 +165,7 @@ def one_ufunc_case(pb, f, dt, arr, cls, stt=None):
             if q is None:
                 return "skip:quantity_ufunc"
         ops = {"ss": (x, y), "ss_dask": (x, y), "sa": (x, y), "as": (y, x), "sk": (x, k), "ks": (k, x), "sq": (x, None), "qs": (None, x),
-               "out": (x, y), "out_tuple": (x, y), "s0d": (x, np.array(k)), "bcast": (x, y[:1]), "out_partial": (x, y)}[arr]
+               "out": (x, y), "out_tuple": (x, y), "s0d": (x, np.array(k)), "bcast": (x, y[:1]), "out_partial": (x, y), "out_partial_as": (y, x)}[arr]
         raw = tuple(q if o is None else o for o in ops)
         try:
             exp = f(*raw)
@@ -200,6 +200,9 @@ def one_ufunc_case(pb, f, dt, arr, cls, stt=None):
             args, first = (a, b), a
         if arr == "out_partial":
             return partial_out(pb, f, cls, (a, b), a, outs, what) if f.nout == 2 else "skip:single_output"
+        if arr == "out_partial_as":
+            # ... and with a plain array as the leading operand: the only signal among the inputs is still the first signal operand
+            return partial_out(pb, f, cls, (y.copy(), a), a, outs, what) if f.nout == 2 else "skip:single_output"
         if arr in ("out", "out_tuple"):
             tg = [mk_sig(pb, cls, np.zeros_like(o), 2) for o in outs]
             before = [attrs(t) for t in tg]
